@@ -98,6 +98,44 @@ def check(R):
                 raise GuardMissing(f'{rci.fn}: the completing subscription is not compared with the one in the reporting slot')
             return e
         R.cut('P2', rci, 'vacate the reporting slot / consume its cancellation', vac, 'the completing subscription is the one the slot was filled for (ids equal)', same_sub)
+        # a report that found nothing to say SENDS nothing - the subscriber did not hear from us, so its max-interval (liveness) clock must
+        # not be restarted: (1) ReportDataResponder::respond's answer for "nothing was sent" differs from "sent and accepted", (2) on that
+        # answer the reporter restores next_reported_at from the subscription's last real report before it keeps the subscription.
+        # (Otherwise every unrelated attribute change on the node postpones the liveness report by another max_int / 2 - for ever, if such
+        # changes keep coming - and the subscriber times the subscription out.)
+        rsp = async_body(R, 'im::ReportDataResponder::respond')
+        sends = rsp.calls('im::ReportDataResponder::send')
+        R.floor('send(..) in ReportDataResponder::respond', len(sends), 1)
+        sent_vals, unsent_vals = set(), set()
+        for bb_, k_, pl_ in prims.result_defs(rsp):
+            if k_ != 'agg' or pl_.get('var') != 'Ok' or not pl_.get('a'):
+                continue
+            a_ = pl_['a'][0]
+            ss_ = prims.sources(rsp, a_)
+            toks = {f"{x[1].split('::')[-1]}::{x[2]}" for x in ss_ if x[0] == 'agg' and x[1].endswith('RespondOutcome')} | {('true' if c_ else 'false') for c_ in src_consts(ss_) if c_ in (0, 1) and a_.get('k', {}).get('ty') == 'bool'}
+            if a_.get('k', {}).get('ty') == 'bool':
+                toks = {'true' if a_['k'].get('v') else 'false'}
+            # "sent" = the value is produced after a send on every path (it may be chosen by a branch on send's result)
+            after_send = not prims.precedes(rsp, [t_.bb for t_ in sends], [bb_]) or 'im::ReportDataResponder::send' in src_calls(ss_)
+            (sent_vals if after_send else unsent_vals).update(toks or {'<the value of send()>'})
+        for t_ in sends:
+            # `self.send(..).await` in tail position: the result IS send's result
+            if any(k_ == 'call' and bb_ == t_.bb for bb_, k_, pl_ in prims.result_defs(rsp)):
+                sent_vals.add('<the value of send()>')
+        accepted_like = {v for v in unsent_vals if v in ('true', 'RespondOutcome::Accepted')}
+        R.expect('P5', rsp.fn, 'the answer for "nothing was sent" differs from the answer for "sent and accepted"', bool(unsent_vals) and not accepted_like,
+                 f'not sent: {sorted(unsent_vals)}; sent: {sorted(sent_vals)}', f'a path that sends nothing answers {sorted(accepted_like)} - the same as a report that was sent and accepted: the caller commits reported_at = now for a report '
+                 'the subscriber never got')
+        rd = async_body(R, IM + '::report_data')
+        restorers = sorted(n_ for n_, b_ in F.bodies.items() if b_.focus and n_.startswith(RC + '::') and
+                           any(st[1].get('a') and src_fields(prims.sources(b_, st[1]['a'][0])) and all(f.startswith(('reported_at:', 'subscription:')) for f in src_fields(prims.sources(b_, st[1]['a'][0])))
+                               for i, j, st in b_.field_writes('next_reported_at:' + RC)))
+        rcalls = [t_.bb for t_ in rd.calls(*restorers)] if restorers else []
+        R.expect('P3', rd.fn, 'after a report that sent nothing the reporter restores next_reported_at from the last report the subscriber really received', bool(rcalls),
+                 f'{[r.split("::")[-1] for r in restorers]} called in report_data', 'no function restores ReportContext.next_reported_at from Subscription.reported_at on the nothing-sent answer')
+        if rcalls:
+            emp, _o = prims.enum_local_edges(F, rd, lambda pl: True, 'im::RespondOutcome', ['Empty'])
+            R.cut('P2', rd, 'keep the last-report timestamp (restore next_reported_at)', rcalls, 'respond answered "nothing was sent"', emp)
         sb = async_body(R, IM + '::subscribe')
         keep = call_bbs(sb, RC + '::set_keep')
         pr = named_local(sb, 'primed')
